@@ -35,7 +35,9 @@ def run(tier, seed):
     # 2. recorded histories of the real pools against H_Queue
     exe = vlib.build_driver("d_pool")
     nseeds = 60 if quick else 1500
-    jobs = [dict(exe=exe, scn="pool", seed0=seed * 100000 + 1, count=nseeds, opts=c) for c in configs()]
+    # (the single-producer/single-consumer access mode gets four times the seeds: whether the implementation chosen for it
+    #  tolerates a producer and a consumer on different threads shows only in a few percent of the two-actor schedules)
+    jobs = [dict(exe=exe, scn="pool", seed0=seed * 100000 + 1, count=nseeds * (4 if "access=1" in c else 1), opts=c) for c in configs()]
     runs = vlib.sweep(jobs)
     if not quick:
         fjobs = [dict(exe=exe, scn="pool", seed0=seed * 100000 + 50001, count=300, opts=c, mode="free",
